@@ -192,6 +192,11 @@ HARNESSES = [
                 dict(id="entry_from_inode", defines={"FN": 2, "NLEN": 6}, tier="quick",
                      unwindset=["harness.0:7", "harness.1:7", "strnlen.0:8", "strlen.0:8",
                                 "verif_nd_bytes.0:100"])]),
+    dict(name="xattr_unloaded", file="xattr_unloaded.c", label="proved", timeout=300,
+         fp={"read_at": "stub_read_at", "destroy": "xattr_reader_destroy",
+             "copy": "xattr_reader_copy"},
+         pre_instrument_flags=["--replace-calls", "sqfs_xattr_reader_read:stub_xr_read"],
+         malloc_fail=True, flags=_UF, unwindset=["sqfs_xattr_reader_read_all.0:2"]),
     # 250-300 s on an idle machine, more under load: thorough tier only
     dict(name="xattr_read", file="xattr_read.c", label="proved", timeout=1800,
          cases=[dict(id="default", tier="thorough")],
